@@ -1,5 +1,6 @@
 /-
-C13 helper lemmas, part B: association lists, reading through pointers, and the two
+C13 helper lemmas, part B: association lists, array indices (`str(i)` against the
+RFC 6901 index syntax), reading through pointers, and the two
 path updates of `apply_json_fragment` (`_ensure_pointer_exists` + `pointer.set`, and
 `to_last` + `pop`) against their reference versions `setO` / `popO`.
 -/
@@ -190,6 +191,128 @@ theorem wfList_getElem (xs : List J) (i : Nat) (c : J) (hx : J.wfList xs = true)
     cases i with
     | zero => simp at h; subst h; exact hx.1
     | succ n => simp at h; exact ih n hx.2 h
+
+/-! ### `str(i)` and the array-index syntax of RFC 6901 are inverse to each other -/
+
+theorem char_le_iff (a b : Char) : a ≤ b ↔ a.toNat ≤ b.toNat := by
+  rw [Char.le_def, UInt32.le_iff_toNat_le]
+  rfl
+
+theorem digitChar_of_isDigit (c : Char) (h : c.isDigit = true) : (c.toNat - 48).digitChar = c := by
+  rw [Char.isDigit_iff_toNat] at h
+  have h1 : 48 ≤ c.toNat := h.1
+  have h2 : c.toNat ≤ 57 := h.2
+  rw [← Char.ofNat_toNat c]
+  generalize c.toNat = n at *
+  have : n = 48 ∨ n = 49 ∨ n = 50 ∨ n = 51 ∨ n = 52 ∨ n = 53 ∨ n = 54 ∨ n = 55 ∨ n = 56 ∨ n = 57 := by omega
+  rcases this with rfl | rfl | rfl | rfl | rfl | rfl | rfl | rfl | rfl | rfl <;> decide
+
+/-- a canonical decimal numeral: first digit `1`–`9`, then digits -/
+def Canon (c : Char) (cs : List Char) : Prop :=
+  ('1' ≤ c ∧ c ≤ '9') ∧ ∀ d ∈ cs, ('0' ≤ d ∧ d ≤ '9')
+
+theorem parseIndexL_canon (c : Char) (cs : List Char) (h : Canon c cs) :
+    parseIndexL (c :: cs) = some (Nat.ofDigitChars 10 (c :: cs) 0) := by
+  obtain ⟨⟨h1, h9⟩, hd⟩ := h
+  have hc0 : c ≠ '0' := by
+    intro e; subst e; revert h1; decide
+  have hall : cs.all (fun d => decide ('0' ≤ d ∧ d ≤ '9')) = true := by
+    simpa [List.all_eq_true] using hd
+  unfold parseIndexL
+  split
+  · rename_i heq; cases heq
+  · rename_i heq; cases heq; exact absurd rfl hc0
+  · rename_i c' cs' _ heq
+    cases heq
+    simp only [h1, h9, hall, and_self, if_true]
+    rfl
+
+theorem canon_of_parseIndexL (l : List Char) (i : Nat) (h : parseIndexL l = some i) :
+    (l = ['0'] ∧ i = 0) ∨ ∃ c cs, l = c :: cs ∧ Canon c cs ∧ i = Nat.ofDigitChars 10 l 0 := by
+  unfold parseIndexL at h
+  split at h
+  · cases h
+  · left; cases h; exact ⟨rfl, rfl⟩
+  · rename_i c cs _
+    right
+    split at h
+    · rename_i hc
+      cases h
+      refine ⟨c, cs, rfl, ⟨⟨hc.1, hc.2.1⟩, ?_⟩, rfl⟩
+      have := hc.2.2
+      simpa [List.all_eq_true] using this
+    · cases h
+
+theorem toDigits_ofDigitChars_acc (cs : List Char) (hcs : ∀ d ∈ cs, ('0' ≤ d ∧ d ≤ '9')) (m : Nat) (hm : 0 < m) :
+    Nat.toDigits 10 (Nat.ofDigitChars 10 cs m) = Nat.toDigits 10 m ++ cs := by
+  induction cs generalizing m with
+  | nil => simp
+  | cons d cs ih =>
+    have hd := hcs d (by simp)
+    rw [char_le_iff, char_le_iff] at hd
+    have hdig : d.isDigit = true := Char.isDigit_iff_toNat.2 hd
+    have hlt : d.toNat - 48 < 10 := by
+      have : d.toNat ≤ 57 := hd.2
+      omega
+    rw [Nat.ofDigitChars_cons, ih (fun x hx => hcs x (by simp [hx])) _ (by omega)]
+    rw [show ('0'.toNat) = 48 from rfl]
+    rw [← Nat.toDigits_append_toDigits (by decide) hm hlt, Nat.toDigits_of_lt_base hlt,
+      digitChar_of_isDigit d hdig]
+    simp
+
+theorem toDigits_ofDigitChars (c : Char) (cs : List Char) (h : Canon c cs) :
+    Nat.toDigits 10 (Nat.ofDigitChars 10 (c :: cs) 0) = c :: cs := by
+  obtain ⟨⟨h1, h9⟩, hd⟩ := h
+  rw [char_le_iff] at h1 h9
+  have h1' : 49 ≤ c.toNat := h1
+  have h9' : c.toNat ≤ 57 := h9
+  have hdig : c.isDigit = true := Char.isDigit_iff_toNat.2 ⟨by show 48 ≤ c.toNat; omega, h9⟩
+  rw [Nat.ofDigitChars_cons, show ('0'.toNat) = 48 from rfl, Nat.mul_zero, Nat.zero_add,
+    toDigits_ofDigitChars_acc cs hd _ (by omega), Nat.toDigits_of_lt_base (by omega),
+    digitChar_of_isDigit c hdig]
+  rfl
+
+/-- `int(part)` of a part that passes `_RE_ARRAY_INDEX` prints back as that part -/
+theorem toDigits_of_parseIndexL (l : List Char) (i : Nat) (h : parseIndexL l = some i) :
+    Nat.toDigits 10 i = l := by
+  rcases canon_of_parseIndexL l i h with ⟨rfl, rfl⟩ | ⟨c, cs, rfl, hc, rfl⟩
+  · rfl
+  · exact toDigits_ofDigitChars c cs hc
+
+theorem canon_toDigits (n : Nat) (hn : 0 < n) : ∃ c cs, Nat.toDigits 10 n = c :: cs ∧ Canon c cs := by
+  induction n using Nat.strongRecOn with
+  | _ n ih =>
+    rw [Nat.toDigits_eq_if (by decide)]
+    split
+    · rename_i hlt
+      refine ⟨n.digitChar, [], rfl, ⟨?_, ?_⟩, by simp⟩
+      · rw [char_le_iff, Nat.toNat_digitChar_of_lt_ten hlt]; show 49 ≤ 48 + n; omega
+      · rw [char_le_iff, Nat.toNat_digitChar_of_lt_ten hlt]; show 48 + n ≤ 57; omega
+    · rename_i hge
+      obtain ⟨c, cs, he, hc, hcs⟩ := ih (n / 10) (by omega) (by omega)
+      refine ⟨c, cs ++ [(n % 10).digitChar], by simp [he], hc, ?_⟩
+      intro d hd
+      simp only [List.mem_append, List.mem_singleton] at hd
+      rcases hd with hd | rfl
+      · exact hcs d hd
+      · have hlt : n % 10 < 10 := Nat.mod_lt _ (by decide)
+        rw [char_le_iff, char_le_iff, Nat.toNat_digitChar_of_lt_ten hlt]
+        exact ⟨by show 48 ≤ 48 + n % 10; omega, by show 48 + n % 10 ≤ 57; omega⟩
+
+/-- `str(i)` passes `_RE_ARRAY_INDEX` and `int` reads `i` back -/
+theorem parseIndexL_toDigits (n : Nat) : parseIndexL (Nat.toDigits 10 n) = some n := by
+  by_cases hn : n = 0
+  · subst hn; rfl
+  · obtain ⟨c, cs, he, hc⟩ := canon_toDigits n (by omega)
+    rw [he, parseIndexL_canon c cs hc, ← he, Nat.ofDigitChars_ten_toDigits]
+
+theorem parseIndex_idxKey (i : Nat) : parseIndex (idxKey i) = some i := by
+  simp only [parseIndex, idxKey, Nat.toString_eq_repr, Nat.toList_repr]
+  exact parseIndexL_toDigits i
+
+theorem idxKey_of_parseIndex (k : String) (i : Nat) (h : parseIndex k = some i) : k = idxKey i := by
+  have := toDigits_of_parseIndexL k.toList i h
+  rw [idxKey, Nat.toString_eq_repr, Nat.repr_eq_ofList_toDigits, this, String.ofList_toList]
 
 /-! ### reading through pointers -/
 
